@@ -19,7 +19,8 @@ EXPLANATION = (
     " (R6) a built-in function writes to the variables of its call only through the result setter: it leaves its arguments, which are written back to the caller's variables when passed by reference, as it found them."
     " (R7 = C12.R16) the VM does not tell the numeric types apart when it decides on Type mismatch; (R8) LTRIM$ / RTRIM$ trim with the blank character as pattern, not with the std white-space trims; (R9) the code of CHR$ is range-tested before it is narrowed to a byte."
     " (R10) STR$ formats with plain Display only and adds no text outside the alphabet VAL reads (no exponent formatter, no letters)."
-    " (R11) the limit on the length of a string is inclusive: the guard in front of every Out of string space, evaluated on the three orderings of length and MAX_STRING_LENGTH, makes the string below and at the limit and refuses it above.")
+    " (R11) the limit on the length of a string is inclusive: the guard in front of every Out of string space, evaluated on the three orderings of length and MAX_STRING_LENGTH, makes the string below and at the limit and refuses it above."
+    " (R12) INSTR visits every start position: each variable its search loop carries forward is advanced by the constant 1 (or the search is handed to str::find); an advance by a computed amount is reported - also a correct skip table, whose correctness is not visible in its shape.")
 NOT_DECIDED = [
     "LEFT$/RIGHT$/MID$ substring equations, INSTR minimality, LEN additivity, UCASE$/LCASE$/LTRIM$/RTRIM$ "
     "laws, SPACE$ = STRING$, VAL(STR$(k)) = k (value-level string arithmetic)",
@@ -761,6 +762,63 @@ def r11_length_limit_is_inclusive(ctx, rule="C17.R11"):
     ctx.require(rule, 1)
 
 
+def r12_instr_visits_every_position(ctx, rule="C17.R12"):
+    """INSTR(n, s, t) is the *least* position >= n at which t occurs.  A search written as a loop over start positions
+    finds the least one only if it visits every position: each variable the loop carries forward by adding to itself is
+    advanced by the constant 1.  (A search handed to str::find / match_indices visits every position by contract.)  An
+    advance by a computed amount - the length of a partial match, say - jumps over occurrences that start inside it."""
+    prog = ctx.prog
+    fns = [f for f in _builtin_fns(prog, "instr") if f.kind != "closure"]
+    if not fns:
+        raise CheckError("%s: built-in instr not found" % rule)
+    n_loops = 0
+    delegated = False
+    for f in fns:
+        body = f.body
+        for _b, t in body.calls():
+            if re.search(r"str>::(find|match_indices|rfind)$|<impl str>::(find|match_indices)", mir.callee_path(t) or ""):
+                delegated = True
+        for b, blk in enumerate(body.blocks):
+            if blk.get("c"):
+                continue
+            succs = body.succ(b)
+            in_cycle = any(b in body.reachable(x) for x in succs if not body.is_cleanup(x))
+            if not in_cycle:
+                continue
+            for st in blk["s"]:
+                if st["k"] != "assign" or st["p"][1] or st["r"]["k"] != "use":
+                    continue
+                src = mir.op_place(st["r"]["o"])
+                if src is None or src[1] != [{"f": 0}]:
+                    continue
+                d = body.single_def(src[0])
+                if not d or d[1] == "T" or d[2]["r"]["k"] != "bin" or d[2]["r"]["op"] not in ("Add", "AddWithOverflow"):
+                    continue
+                r = d[2]["r"]
+                pa, pb = mir.op_place(r["a"]), mir.op_place(r["b"])
+                L = st["p"][0]
+                if pa is not None and pa == [L, []]:
+                    other = r["b"]
+                elif pb is not None and pb == [L, []]:
+                    other = r["a"]
+                else:
+                    continue
+                n_loops += 1
+                k = (other.get("k") or {}).get("int") if isinstance(other, dict) else None
+                name = body.var_name(L) or "_%d" % L
+                ctx.decide(k == 1, rule, "%s:%s:%s" % (rule, f.name, name), "%s:%s" % (f.file, st.get("ln")),
+                           "%s advances by 1" % name,
+                           "the search loop of %s advances `%s` by %s: INSTR no longer visits every start position, so it misses an "
+                           "occurrence that begins inside a partial match (INSTR(\"aaab\", \"aab\") is 2)"
+                           % (f.name, name, "the constant %s" % k if k is not None else "a computed amount"))
+    if not n_loops:
+        if delegated:
+            ctx.ok(rule, rule + ":delegated", fns[0].loc, "the search is handed to str::find")
+        else:
+            ctx.unknown(rule, rule + ":search", fns[0].loc, "INSTR neither loops over start positions nor calls str::find: not decided")
+    ctx.require(rule, 1, max_unknown=1)
+
+
 def run(ctx):
     common.install(ctx)
     r1_accessors(ctx)
@@ -776,3 +834,4 @@ def run(ctx):
     r9_chr_code_is_a_byte(ctx)
     r10_str_writes_what_val_reads(ctx)
     r11_length_limit_is_inclusive(ctx)
+    r12_instr_visits_every_position(ctx)
